@@ -61,6 +61,13 @@ def evolve (d : Dialect) : List TCall → DB × Option DB → Option (DB × Opti
         | some s => (execP pub s c.args).bind (fun p' => evolve d rest (p', work))
       | _ => none
 
+/-- statements are compared as token streams: blanks and keyword case do not matter -/
+def normTok : Tok → Tok
+  | .word w => .word (upper w)
+  | t => t
+
+def sameTokens (d : Dialect) (a b : Str) : Bool := (lex d a).map normTok == (lex d b).map normTok
+
 def checkSqlw : P String := do
   let tab ← pOracle
   let _ω := tab.toOracle
@@ -100,8 +107,8 @@ def checkSqlw : P String := do
       | .begin => t.kind == "B"
       | .commit => t.kind == "C"
       | .rollback => t.kind == "RB"
-      | .query text args => t.kind == "Q" && t.text == text && t.args == args
-      | .exec s args => t.kind == "E" && t.text == render d s && t.args.length == args.length &&
+      | .query text args => t.kind == "Q" && sameTokens d t.text text && t.args == args
+      | .exec s args => t.kind == "E" && sameTokens d t.text (render d s) && t.args.length == args.length &&
           (t.args.zip args).all (fun (a, b) => cellApprox a b))
   if cancelled then corr := "ok"
   else if (status == "ok") != mok then corr := s!"fail:status_model={mok}_impl={status}"
